@@ -784,6 +784,103 @@ fn scenario_access(args: &Args, report: &mut Report) {
     let _ = std::fs::remove_dir_all(&tmp);
 }
 
+// ------------------------------------------------------------------------------------------------
+// kept-alive connections over time (C16: "the connection stays usable when keep-alive is on")
+// ------------------------------------------------------------------------------------------------
+
+/// A kept-alive connection may be closed by the tracker only after `max_connection_idle` seconds (of the tracker's own
+/// whole-second clock) without a request. Under the mock clock: connections that keep making requests at gaps shorter
+/// than the limit must survive any number of connection-cleaning passes, however the clock moves between the passes
+/// (the cleaning interval may legally exceed the idle limit). The clock is moved in two steps inside one cleaning
+/// interval - request in the middle - so that a deadline computed from anything but the request's own instant is
+/// exposed (seeded C16c cached the deadline of the previous cleaning pass). Decided on hook counters
+/// (`http.connections_cleaned` per socket worker), never on a quiet period.
+fn scenario_keepalive(args: &Args, report: &mut Report) {
+    let idle = args.u64("idle", 4) as u32;
+    let interval = args.u64("interval", 3);
+    let rounds = args.usize("rounds", 6);
+    let (tracker, cfg) = match setup(args, report, |c| {
+        c.cleaning.max_connection_idle = idle;
+        c.cleaning.connection_cleaning_interval = interval;
+    }) {
+        Some(x) => x,
+        None => return,
+    };
+    if !cfg.keep_alive {
+        report.inconclusive("keepalive scenario needs keep_alive = true");
+        return;
+    }
+    let case = json!({"engine":"http_live","scenario":"keepalive","config":cfg.label,"max_connection_idle":idle,"connection_cleaning_interval":interval});
+    let wait_pass = |n: u64| vhttp::live::wait_all_threads("http.connections_cleaned", n, cfg.s, 60_000);
+    let h = hash_n(0x79, 0, 1);
+    // several busy connections (so that every socket worker holds some), one per "client"
+    let n_conns = 2 * cfg.s + 2;
+    let mut conns: Vec<Conn> = Vec::new();
+    for k in 0..n_conns {
+        let ip = IpAddr::V4(Ipv4Addr::new(127, 0, 13, 1 + k as u8));
+        match Conn::open(tracker.v4, Some(ip)) {
+            Ok(c) => conns.push(c),
+            Err(e) => {
+                report.inconclusive(format!("connect: {:?}", e));
+                return;
+            }
+        }
+    }
+    let mut t = 1000u32;
+    let mut request_all = |report: &mut Report, conns: &mut Vec<Conn>, t: u32, phase: &str| -> bool {
+        let mut ok = true;
+        for (k, c) in conns.iter_mut().enumerate() {
+            let rp = c.request(&announce_req(&h, 7000 + k as u16, "", 1, None, "", ""), 15_000);
+            report.eval();
+            match rp.map_err(|e| format!("{:?}", e)).and_then(|x| classify(&x.body)) {
+                Ok(Reply::Announce { .. }) => {}
+                other => {
+                    ok = false;
+                    report.violation("http.live.busy_keepalive_connection_lost", "framing", format!("{} (clock {}): connection {} made a request {} s ago at most (limit {} s) but its next request got {:?}", phase, t, k, idle / 2, idle, other), case.clone());
+                }
+            }
+        }
+        ok
+    };
+    if !wait_pass(1) {
+        report.inconclusive("no connection cleaning pass observed (http.connections_cleaned)");
+        return;
+    }
+    if !request_all(report, &mut conns, t, "first request") {
+        return;
+    }
+    let half = idle / 2; // gaps of idle/2 seconds: always well inside the limit
+    for round in 0..rounds {
+        // a pass has just happened: the next one is `interval` real seconds away. Inside that window: clock +half, request,
+        // clock +half again (so the coming pass sees a clock `idle` seconds past the previous pass but only `half` past the
+        // last request of every connection)
+        t += half;
+        aquatic_common::verif::set_clock(Some(t));
+        if !request_all(report, &mut conns, t, &format!("round {} mid-interval request", round)) {
+            return;
+        }
+        t += idle - half;
+        aquatic_common::verif::set_clock(Some(t));
+        if !wait_pass(1) {
+            report.inconclusive("no connection cleaning pass observed (http.connections_cleaned)");
+            return;
+        }
+        // every connection was used `idle - half` < idle seconds ago: all must still be usable
+        if !request_all(report, &mut conns, t, &format!("round {} after the cleaning pass", round)) {
+            return;
+        }
+        report.nontrivial(vcore::fnv(format!("keepalive/{}/{}", cfg.label, round).as_bytes()));
+        report.count("keepalive.rounds_survived");
+    }
+    // and the other direction is only observed, not demanded: an idle connection is eventually closed
+    t += 3 * idle;
+    aquatic_common::verif::set_clock(Some(t));
+    let _ = wait_pass(2);
+    let closed = conns.iter_mut().filter_map(|c| c.request(&announce_req(&h, 7999, "", 1, None, "", ""), 3_000).err()).count();
+    report.add("observation.idle_connections_closed_after_3x_limit", closed as u64);
+    report.sample(json!({"case": case, "connections": n_conns, "rounds": rounds}));
+}
+
 fn scenario_expiry(args: &Args, report: &mut Report) {
     let age = 30u32;
     let (tracker, cfg) = match setup(args, report, |c| c.cleaning.max_peer_age = age) {
@@ -933,6 +1030,7 @@ fn main() {
         "buffers" => scenario_buffers(&args, &mut report),
         "address" => scenario_address(&args, &mut report),
         "access" => scenario_access(&args, &mut report),
+        "keepalive" => scenario_keepalive(&args, &mut report),
         "expiry" => scenario_expiry(&args, &mut report),
         "corpus" => scenario_corpus(&args, &mut report),
         other => report.inconclusive(format!("unknown scenario {}", other)),
